@@ -47,6 +47,8 @@ type Ctx struct {
 	Verif string
 	fwd   map[string][]fwdInfo
 	acq   map[*prog.Func]map[string]bool
+	verbs *verbTables
+	memo  map[string]bool
 	Repo  string
 	rule  string
 	floor map[string]int
@@ -54,7 +56,7 @@ type Ctx struct {
 }
 
 func NewCtx(p *prog.Program, prop, tier string) *Ctx {
-	return &Ctx{P: p, Prop: prop, Tier: tier, Funcs: map[string]bool{}, floor: map[string]int{}, count: map[string]int{}}
+	return &Ctx{P: p, Prop: prop, Tier: tier, Funcs: map[string]bool{}, floor: map[string]int{}, count: map[string]int{}, memo: map[string]bool{}}
 }
 
 func (c *Ctx) Thorough() bool { return c.Tier == "thorough" }
